@@ -8,6 +8,7 @@ import shutil
 
 from .. import classify, clock, drive, hist, listing, world
 
+SPELLING = False  # this monitor controls the spelling of path arguments itself
 LEVEL = "exploration"
 RULE = (
     "case = tree (flat or with 1-4 sibling / chained child histories) sealed by the same command sequence at a baseline "
